@@ -104,12 +104,20 @@ def build_fuzz(name):
     spec = HARNESS[name]
     d = os.path.join(BUILD, 'fz_' + name)
     os.makedirs(d, exist_ok=True)
-    san = ['-fsanitize=address,undefined', '-fno-sanitize=pointer-overflow,shift-base', '-fno-sanitize-recover=undefined', '-fno-omit-frame-pointer']
+    isched = '-fsanitize=thread' in spec.get('repo_cflags', [])
+    if isched:
+        # schedule fuzzing: the library keeps its thread instrumentation (call-backs land in vrt.c), plus coverage feedback;
+        # no ASan (coroutine stacks), no sanitizer runtime except UBSan
+        san = ['-fsanitize=undefined', '-fno-sanitize=pointer-overflow,shift-base', '-fno-sanitize-recover=undefined']
+        repo_san = san + ['-fsanitize=fuzzer-no-link,thread']
+    else:
+        san = ['-fsanitize=address,undefined', '-fno-sanitize=pointer-overflow,shift-base', '-fno-sanitize-recover=undefined', '-fno-omit-frame-pointer']
+        repo_san = san + ['-fsanitize=fuzzer-no-link']
     base = ['-g', '-O1', '-I' + os.path.join(REPO, 'include'), '-I' + os.path.join(H, 'core'), '-D' + GUARD] + spec.get('cflags', [])
     cmds, objs = [], []
     for src in spec.get('repo', []):
         o = os.path.join(d, 'repo_' + os.path.basename(src) + '.o')
-        cmds.append(['clang'] + base + san + ['-fsanitize=fuzzer-no-link', '-c', os.path.join(REPO, src), '-o', o])
+        cmds.append(['clang'] + base + repo_san + ['-c', os.path.join(REPO, src), '-o', o])
         objs.append(o)
     for src in spec.get('c', []):
         o = os.path.join(d, os.path.basename(src) + '.o')
